@@ -32,6 +32,37 @@ CORE_TRUSTED = [
 ]
 
 
+def heap_traffic_cases(backends, rng, count):
+    """heap traffic with the full population of 16 timers: register many with scattered expiries, cancel interior /
+    last / first ones, register more, then let the loop run: the wait deadline must be the earliest remaining expiry
+    at every wait (a damaged heap makes the loop oversleep a due timer: clauses 403/404) and the callbacks come
+    in expiry order; cancellations also from handlers"""
+    cases = []
+    for _ in range(count):
+        be = rng.choice(backends)
+        k = rng.randint(7, 16)
+        ids = list(range(k))
+        exp = {j: rng.choice([1, 2, 3, 4, 5, 7, 10, 11, 12, 13, 20, 50]) * 100000000 + rng.choice([0, 0, 1000000, 999]) for j in ids}
+        setup = ["tr%d+%d" % (j, exp[j]) for j in ids]
+        live = list(ids)
+        for _ in range(rng.randint(2, min(6, k - 2))):
+            v = rng.choice(live)
+            live.remove(v)
+            setup.append("tu%d" % v)
+            if rng.random() < 0.5:
+                exp[v] = rng.choice([1, 2, 6, 9, 13, 14, 30]) * 100000000
+                setup.append("tr%d+%d" % (v, exp[v]))
+                live.append(v)
+        secs = ["B" + be, "M%d" % rng.choice([24, 40]), "S " + " ".join(setup)]
+        for j in rng.sample(live, min(len(live), rng.randint(0, 3))):
+            others = [x for x in live if x != j]
+            if others:
+                secs.append("Ht%d:%s" % (j, rng.choice(["tu%d" % rng.choice(others), "tu%d tu%d" % (rng.choice(others), rng.choice(others)),
+                                                       "tu%d tr%d+%d" % (rng.choice(others), rng.choice(others), rng.choice([1, 3, 8]) * 100000000)])))
+        cases.append(";".join(secs))
+    return cases
+
+
 CORE_LEAF_FILES = ["LeafCoreFd.v", "LeafCoreTask.v", "LeafCoreMain.v", "LeafCoreEpoll.v", "LeafCorePoll.v"]
 
 
@@ -426,33 +457,7 @@ class C04(CoreCheck):
 
     def gen_cases(self, ctx, rng, n):
         cases = CoreCheck.gen_cases(self, ctx, rng, n)
-        # heap traffic with the full population of 16 timers: register many with scattered expiries, cancel interior /
-        # last / first ones, register more, then let the loop run: the wait deadline must be the earliest remaining expiry
-        # at every wait (a damaged heap makes the loop oversleep a due timer: clauses 403/404) and the callbacks come
-        # in expiry order; cancellations also from handlers
-        for _ in range(max(60, n // 5)):
-            be = rng.choice(self.backends)
-            k = rng.randint(7, 16)
-            ids = list(range(k))
-            exp = {j: rng.choice([1, 2, 3, 4, 5, 7, 10, 11, 12, 13, 20, 50]) * 100000000 + rng.choice([0, 0, 1000000, 999]) for j in ids}
-            setup = ["tr%d+%d" % (j, exp[j]) for j in ids]
-            live = list(ids)
-            for _ in range(rng.randint(2, min(6, k - 2))):
-                v = rng.choice(live)
-                live.remove(v)
-                setup.append("tu%d" % v)
-                if rng.random() < 0.5:
-                    exp[v] = rng.choice([1, 2, 6, 9, 13, 14, 30]) * 100000000
-                    setup.append("tr%d+%d" % (v, exp[v]))
-                    live.append(v)
-            secs = ["B" + be, "M%d" % rng.choice([24, 40]), "S " + " ".join(setup)]
-            for j in rng.sample(live, min(len(live), rng.randint(0, 3))):
-                others = [x for x in live if x != j]
-                if others:
-                    secs.append("Ht%d:%s" % (j, rng.choice(["tu%d" % rng.choice(others), "tu%d tu%d" % (rng.choice(others), rng.choice(others)),
-                                                           "tu%d tr%d+%d" % (rng.choice(others), rng.choice(others), rng.choice([1, 3, 8]) * 100000000)])))
-            cases.append(";".join(secs))
-        return cases
+        return cases + heap_traffic_cases(self.backends, rng, max(60, n // 5))
 
     def nontrivial(self, case, mo):
         return self.count(mo, r"\| Ct") >= 1 and self.count(mo, r"\| W\d+ ") >= 2
@@ -572,6 +577,9 @@ class C07(CoreCheck):
 
     def gen_cases(self, ctx, rng, n):
         cases = CoreCheck.gen_cases(self, ctx, rng, n)
+        # "blocks in the kernel only when nothing is due" with a timer population that exercises the heap (interior
+        # cancellations, re-registrations): the family of C04 (seed C07_9: a damaged heap hides a due timer under a later one)
+        cases = cases + heap_traffic_cases(self.backends, rng, max(40, n // 8))
         # work that becomes due while the repeated-deadline kernel timer is ARMED (same far deadline on five consecutive
         # waits): a chain of self-posts of an iv_event (delivered through the loop's internal task), raw-event posts,
         # self-re-registering tasks, started from the 6th..8th wake-up, with the waking descriptor going quiet
@@ -798,7 +806,7 @@ class C18(CoreCheck):
             fs = ex.submit(c18small.build, self.small_d)
             ok, out = CoreCheck.build(self, ctx)
             if ok:
-                ok, out2 = vlib.cc_build(self.d, "churn", ["churn.c"], vlib.LIB_SRCS)
+                ok, out2 = vlib.cc_build(self.d, "churn", ["churn.c"], vlib.LIB_SRCS, wraps=["pthread_create"])
                 out += out2
             oks, outs, self.tls_probe = fs.result()
         if not ok:
